@@ -15,6 +15,7 @@ R7 wrappers                 VFS and passthrough closures change only the inode n
 R2 (cont.)                  rewind-and-scan fallback: the loop ends on error, end of directory, first batch after the cookie or the non-empty rest of the cookie's batch; a miss discards the batch
 R3 (cont.)                  polarity of error-only-if-first
 R5-toggles                  the layers run in the mode negotiated for OPENDIR (shared with C12.R5)
+R4-error-conversion (shared with C05.R4) failure tests of the directory reads and seeks; R7 (cont.) listed entries are looked up under their complete NUL-terminated name
 """
 import json
 import os
